@@ -6,7 +6,10 @@
 (*                                                                         *)
 (* The text of a field value (everything after the colon, including the    *)
 (* final newline) is a sequence of LAYOUT TOKENS, integers:                *)
-(*    w >= 1  a word (Deb822ValueToken); equal numbers = equal text        *)
+(*    w >= 1  a word (Deb822ValueToken); equal numbers = equal text; a     *)
+(*            word may begin with '#' or hold '#', ':' (and ',' in a space *)
+(*            list) wherever it stands -- also first on a continuation     *)
+(*            line: only a '#' in COLUMN 0 of a line makes a comment (CM)  *)
 (*    SP      a run of blanks inside a line                                *)
 (*    NL      the newline that ends a line of the value                    *)
 (*    CT      the blank that starts a continuation line (space or tab,     *)
